@@ -12,16 +12,16 @@ CLAIMED = {
             "random operand pairs over 4 variables, random operands over 4, 5 and 6-7 variables.",
             "TLA+ model checking (TLC) of Bdd.tla + spec->impl table replay + impl->spec trace validation"),
     "C04": ("3.C04", "MC_Bdd: exists/all = Canon(set-level quantification) for every f in AllWF(3) and every variable list of length <= 3 "
-            "over 1..4 (repeats, all orders, an unmentioned variable); tables replayed through BDDEnv::exists/all/exists_impl; random "
+            "over 1..4 (repeats, all orders, an unmentioned variable); tables replayed through BDDEnv::exists/all; random "
             "6-7 variable calls validated by Trace_Bdd (incl. independence of V and f unchanged when V misses the support).",
             "TLA+ model checking (TLC) + spec->impl table replay + impl->spec trace validation"),
     "C05": ("3.C05", "MC_Bdd: aln/amn/exn and the five list-vs-list comparisons equal Canon(arithmetic definition) for all lists of length "
             "<= 3 over AllWF(2), bounds -2..len+2, all list pairs of length <= 2; tables replayed through the real code; random lists of "
-            "3- and 6-variable operands with extreme i64 bounds validated by Trace_Bdd; the formula language's counting forms (every builder "
+            "3- and 6-variable operands with extreme i64 bounds, and lists of 4..12 operands over 4 variables (repeated operands, bounds -1 and len+1) validated by Trace_Bdd; the formula language's counting forms (every builder "
             "formula of MC_Lang with a counting node, constants up to the literal cap) evaluated by the real solver and compared with Lang!Sem.",
             "TLA+ model checking (TLC) + spec->impl table replay + impl->spec trace validation"),
     "C07": ("3.C07", "MC_Bdd: the spec's model algorithm satisfies ModelOK/InferOK on all of AllWF(4); the real model()/infer() answers for every such f "
-            "(65 536) and for random 6-7 variable f are validated against the same predicates by Trace_Bdd (any genuine satisfying cube is "
+            "(65 536), for random 6-7 variable f and for 300 000 calls in ONE environment (screened by a truth-table oracle; flagged calls and a regular sample) are validated against the same predicates by Trace_Bdd (any genuine satisfying cube is "
             "accepted); rsbdd -m -t runs (also combined with -c, against the retained diagram the tool prints without -m) by Trace_Cli.",
             "TLA+ model checking (TLC) + impl->spec trace validation against the property predicate"),
     "C20": ("3.C20", "MC_Bdd: RetainR satisfies RetainOK on AllWF(4) x 3 filters; the real retain_choice_bottom_up answers for every such f (196 608 calls) "
@@ -34,13 +34,14 @@ CLAIMED.update({
             "hold in every reachable state of the environment machine (every construction route, NV=2); TLC-simulated behaviours of Env.tla "
             "(NV=3) are replayed in fresh and long-lived real environments with one variable order and results must be ==/hash-equal iff the "
             "specification's structures are equal; random 300-operation histories are validated by Trace_Env (WF of every node, equal "
-            "function <=> same node over all results of the history).",
+            "function <=> same node over all results of the history); operations with one operand from ANOTHER environment must return the specification's canonical structure (Trace_Bdd).",
             "TLA+ model checking (TLC) of Bdd.tla/Env.tla + spec->impl behaviour replay + impl->spec trace validation"),
     "C13": ("3.C13", "MC_Env: exhaustive exploration of the hash-consing environment machine (NV=2, bounded live handles, all operations incl. "
             "model/retain/clean/fp/drop) with invariants I_Leaves, I_Unique, I_WF, I_Canon, I_Closed and action properties append-only and "
             "history-freedom; TLC-simulated behaviours replayed step by step in fresh and long-lived real environments; real random histories "
             "(NV=6, 300 operations incl. formula evaluations sharing the environment, results being dropped, release phases) logged with pointer "
-            "identities (weakly pinned), table deltas, size() and the fresh-environment result, validated event by event by Trace_Env.",
+            "identities (weakly pinned), table deltas, size() and the fresh-environment result, validated event by event by Trace_Env; histories of 5 000 - 40 000 calls in one environment "
+            "(node table ~10^5 entries, results dropped) screened by a truth-table oracle and validated call by call by the stateless Trace_Bdd.",
             "TLA+ model checking (TLC) of Env.tla + spec->impl behaviour replay + impl->spec trace validation with pointer identities"),
 })
 
@@ -57,7 +58,7 @@ CLAIMED.update({
             "semantics -- for every spine formula of depth <= 2 over {a,b,X} (1.0 M formulas, every node kind, binders, shadowing, counting, "
             "fixed points); every depth <= 1 formula and a sample of depth 2 is rendered (random operator spellings, whitespace, comments, "
             "stray characters, with/without an explicit ordering) and evaluated by the real solver, truth table compared by variable name, "
-            "is_true/is_false compared; random deep formulas (<= 6 names, monotone fixed points) are parsed and evaluated by the real code and "
+            "is_true/is_false compared; random deep formulas (<= 6 names, monotone fixed points, families of 2-3 nested fixed points with alternation, shadowing and self-supporting bodies) are parsed and evaluated by the real code and "
             "validated by Trace_Lang against Sem.",
             "TLA+ model checking (TLC) of Lang.tla + spec->impl case replay + impl->spec trace validation"),
     "C06": ("3.C06", "MC_Lang (Mode=fix): for every spine body of depth <= 1, a seed-dependent 1/40 of the 750 k depth-2 bodies (thorough: all) and simulated depth-3 spines that are semantically monotone in X "
@@ -81,13 +82,13 @@ CLAIMED.update({
     "C10": ("3.C10", "MC_Cli: the command-line pipeline as a TLA+ state machine (one action per stage of main) explored for 51 k configurations "
             "(formula x filter x -c x -m): the transcribed printing algorithm satisfies the acceptance predicates TableOK/VarsOK/HeaderOK. The real "
             "binary is run over a matrix of formulas x 15 filter spellings x 3 input channels x ordering files x {-t,-v,-m,-b N}; every run is one "
-            "event validated by Trace_Cli, which re-tokenizes and re-parses the formula and ordering texts itself, derives the id order, checks "
-            "header, disjoint faithful partition against Sem, -v lines, and keeps a per-configuration stdout digest (channel / repeat independence).",
+            "event validated by Trace_Cli, which re-tokenizes and re-parses the formula and ordering texts itself, takes the variable order the tool exports (-r, probed) as an observable constrained by C09/C11, checks "
+            "header, disjoint faithful partition against Sem (tables up to 256 rows, -t and -v together), -v lines, and keeps a per-configuration stdout digest (channel / repeat independence).",
             "TLA+ model checking (TLC) of Cli.tla + impl->spec trace validation of real CLI runs"),
     "C11": ("3.C11", "Cli!IdOrder/FormulaVars specify variable ids from ordering text and formula; for every formula x ordering variant (permutation, "
             "subset, superset with unused names, duplicates, stray punctuation/keywords/numbers) the CLI run (-o) and the API route (NamedSymbol "
-            "vectors under five sparse id schemes, with a stall watchdog) are validated by Trace_Cli: names in id order, header order, same function as Sem under the default "
-            "order, -r export = id order, and re-importing the export reproduces the byte-identical table (digest under the same key).",
+            "vectors under five sparse id schemes and with repeated names, with a stall watchdog) are validated by Trace_Cli: every name of the text exactly once in the exported order, listed names in file order, header = free variables in the exported order, same function as Sem under the default "
+            "order, and re-importing the export reproduces the byte-identical table (digest under the same key).",
             "TLA+ specification of the ordering + impl->spec trace validation of CLI and API runs"),
     "C12": ("3.C12", "Syntax/Lang/Cli give every pipeline action an Ok/Err post-state and the trace specifications have no action for a panic. "
             "All token sequences (<= 4) and piece strings (<= 3) of the C08 universes plus seeded byte-level inputs (random bytes, invalid UTF-8, "
@@ -98,7 +99,8 @@ CLAIMED.update({
             "every spine formula of depth <= 1 (2). Real exports: BDDGraph DOT of every diagram over 3 variables (names needing escaping) x 3 "
             "filters and SymbolicParseTree DOT of random formulas with repeated sub-terms, plus rsbdd -d/-p runs, are read back and validated by "
             "Trace_Cli: ids unique, only declared ids referenced, node-for-node equal to Canon of the function (omitted leaf per filter), "
-            "unfolding of the tree graph equals the parse tree with shared identical sub-terms.",
+            "unfolding of the tree graph equals the parse tree with shared identical sub-terms; six (thorough sixteen) random diagrams of ~107 000 shared nodes are exported and read back "
+            "(ids declared once, only declared ids referenced, equivalent to the diagram by a simultaneous walk).",
             "TLA+ model checking (TLC) of Dot.tla + impl->spec trace validation of read-back exports"),
 })
 
@@ -108,7 +110,7 @@ CLAIMED.update({
             "(invariant Sound: it is a placement of n non-attacking queens; Lemma: three-valued evaluation agrees with full evaluation) and "
             "ASSUME Complete evaluates the tree under every reference solution. For n up to 16 (thorough 32) Trace_Puzzle checks the structural "
             "conditions that imply equality (attack-pair coverage, '= 1' list per row and column, no list joins non-attacking cells); rsbdd -t -ft "
-            "on the generated file must list exactly the solutions (n = 4, 5); shape check at n = 256.",
+            "on the generated file must list exactly the solutions (n = 4, 5); variable-set check at n = 256.",
             "TLA+ model checking (TLC search machine) of the emitted formula against the puzzle definition + trace validation"),
     "C16": ("3.C16", "Puzzles!Cliques/MaxCliques with the direction semantics of -u. max_clique_gen is run on every edge list of <= 2 records (sample of 3; "
             "thorough: all <= 4) over 3 vertices, random 4-vertex (thorough 5-vertex) lists, x {-u} x {-a}, with vertex names from pools containing "
